@@ -1,9 +1,13 @@
-(* C10, second sentence, composed: the fault-free first round of the protocol model (every committee, quorum,
-   height, leader) through the validation model's entry point.  Every message any correct operator broadcasts in
-   that round - delivered to a correct peer in ANY order, each at most once, while the peer's beacon clock is in
-   the duty's slot - is Accepted (never Ignored, never Rejected). *)
+(* C10, second sentence, composed: rounds of the protocol model (every committee, quorum, height, leader) through
+   the validation model's entry point.  Every message the correct operators broadcast in such a round - delivered
+   to a correct peer in ANY order, each at most once, while the peer's beacon clock is in the duty's slot - is
+   Accepted (never Ignored, never Rejected):
+   - the fault-free first round (C07_sync_fault_free_generic),
+   - round 2 of the recovery from a silent first round (C07_recovery_from_silent_round),
+   - round 2 of the recovery from a prepared first round (C07_recovery_from_prepared_round). *)
 From Coq Require Import List NArith ZArith Bool Lia.
-From SSV Require Import Qbft.Model Qbft.SyncRound Qbft.SyncGeneric Qbft.RecoverGeneric Qbft.Bridge Qbft.HonestGate.
+From SSV Require Import Qbft.Model Qbft.SyncRound Qbft.SyncGeneric Qbft.RecoverGeneric Qbft.RecoverPrepared
+     Qbft.Bridge Qbft.HonestGate.
 From SSV Require Validation.Model Gen.ValidationConsts Validation.ProofsPanic Validation.HonestRound
      Validation.HonestEnvelope.
 Import ListNotations.
@@ -13,6 +17,95 @@ Module HE := SSV.Validation.HonestEnvelope.
 Module VP := SSV.Validation.ProofsPanic.
 
 Definition item_of (m : smsg) : N * N := match m with SM k _ _ => (c_type k, hd 0 (c_signers k)) end.
+
+Lemma NoDup_map_inj_on : forall (A B : Type) (f : A -> B) (l : list A),
+  (forall x y, In x l -> In y l -> f x = f y -> x = y) -> NoDup l -> NoDup (map f l).
+Proof.
+  intros A B f l Hinj Hnd. induction Hnd as [|a l Hni Hnd IH]; [constructor|].
+  cbn [map]. constructor.
+  - intros Hin. apply in_map_iff in Hin. destruct Hin as (y & Ey & Hy).
+    assert (y = a) by (apply Hinj; [right; exact Hy|left; reflexivity|exact Ey]). subst. contradiction.
+  - apply IH. intros x y Hx Hy. apply Hinj; right; assumption.
+Qed.
+
+Lemma item_of_gate : forall fdlen m h rho v nrc rcfull nrcj npj t s,
+  gate_msg fdlen true m = HR.hmsg h rho v fdlen nrc rcfull nrcj npj t s -> item_of m = (t, s).
+Proof.
+  intros fdlen [k rcj pj] h rho v nrc rcfull nrcj npj t s Eg.
+  pose proof (f_equal V.c_type Eg) as E1. pose proof (f_equal V.c_signers Eg) as E2.
+  cbn in E1, E2. unfold item_of. rewrite E1, E2. reflexivity.
+Qed.
+
+(* ---- any bundle of one round's messages ---------------------------------------------------------------------- *)
+
+Section Bundle.
+(* the peer's validator *)
+Variables (vc : V.cfg) (sh : V.share) (vid role fdlen : N) (p2p : bool) (rawlen dlen pkprefix : N).
+Hypothesis W : VP.wf_cfg vc.
+Hypothesis Hshare : V.get_share vc vid = Some sh.
+Hypothesis Hliq : V.s_liquidated sh = false.
+Hypothesis Hmeta : V.s_has_meta sh = true.
+Hypothesis Hatt : V.s_attesting sh = true.
+Hypothesis Hd0 : dlen <> 0.
+Hypothesis Hd1 : dlen <= VC.maxConsensusMsgSize.
+Hypothesis Hr0 : VC.messageOffset < rawlen.
+Hypothesis Hr1 : rawlen <= VC.maxEncodedMsgSize.
+Hypothesis Hrole : (N.eqb role VC.roleValidatorRegistration || N.eqb role VC.roleVoluntaryExit) = false.
+Hypothesis Hvalid : V.valid_role role = true.
+Hypothesis Hfd : fdlen <> 0.
+
+(* the envelope a peer receives for protocol message [m] *)
+Definition envelope_of (m : smsg) : V.envelope :=
+  {| V.e_p2p := p2p; V.e_raw_len := rawlen; V.e_topic := Some (pkprefix mod VC.subnetsCount);
+     V.e_op_found := true; V.e_op_key_ok := true; V.e_rsa_ok := true; V.e_ssv_decode_ok := true;
+     V.e_data_len := dlen; V.e_domain := V.c_domain vc; V.e_pk_prefix := pkprefix; V.e_role := role;
+     V.e_pk_deser_ok := true; V.e_vid := vid; V.e_msg_type := VC.ssvConsensusMsgType;
+     V.e_body := V.BConsensus (gate_msg fdlen true m) |}.
+
+Variables (B : list smsg) (h rho ldr v nrc : N) (rcfull : bool) (nrcj npj : N).
+Hypothesis Hitem : forall m, In m B ->
+  exists t s, gate_msg fdlen true m = HR.hmsg h rho v fdlen nrc rcfull nrcj npj t s /\ HR.honest_item sh ldr (t, s).
+Hypothesis Hinj : forall m1 m2, In m1 B -> In m2 B -> item_of m1 = item_of m2 -> m1 = m2.
+Hypothesis Hleader : V.round_robin (V.s_committee sh) h rho = V.LeaderIs ldr.
+Hypothesis Hrr : V.rr_defined sh h rho = true.
+Hypothesis Hrho1 : VC.firstRound <= rho.
+Hypothesis Hrho2 : rho <= 2.
+
+Lemma bundle_is_accepted : forall (l : list ((Z * Z) * smsg)) (vs : V.vstate),
+  HR.before_round h rho (V.get_cs (vid, role) vs) ->
+  NoDup (map snd l) ->
+  Forall (fun x => HE.in_slot vc h (fst x) /\ In (snd x) B) l ->
+  Forall (eq V.Accept) (snd (V.run vc vs (map (fun x => (fst x, envelope_of (snd x))) l))).
+Proof.
+  intros l vs Hfresh Hndl Hall.
+  set (l' := map (fun x => (fst x, item_of (snd x))) l).
+  assert (Hit : forall m, In m B ->
+            gate_msg fdlen true m = HR.hmsg h rho v fdlen nrc rcfull nrcj npj (fst (item_of m)) (snd (item_of m)) /\
+            HR.honest_item sh ldr (item_of m)).
+  { intros m Hm. destruct (Hitem m Hm) as (t & s & Eg & Hi).
+    pose proof (item_of_gate _ _ _ _ _ _ _ _ _ _ _ Eg) as Et. rewrite Et. cbn [fst snd]. split; assumption. }
+  assert (Hmap : map (fun x => (fst x, envelope_of (snd x))) l =
+                 map (fun x => (fst x, HE.henv vc vid role h rho v fdlen nrc rcfull nrcj npj p2p rawlen dlen pkprefix
+                                        (fst (snd x)) (snd (snd x)))) l').
+  { unfold l'. rewrite map_map. apply map_ext_in. intros [now m] Hx. cbn [fst snd].
+    rewrite Forall_forall in Hall. destruct (Hall _ Hx) as [_ Hm]. cbn [snd] in Hm.
+    destruct (Hit m Hm) as [Eg _]. unfold envelope_of, HE.henv. rewrite Eg. reflexivity. }
+  rewrite Hmap.
+  apply (HE.honest_round_accepted_at_the_gate vc sh vid role h rho ldr v fdlen nrc rcfull nrcj npj p2p rawlen dlen pkprefix
+           W Hshare Hliq Hmeta Hatt Hd0 Hd1 Hr0 Hr1 Hrole Hvalid Hleader Hrr Hfd Hrho1 Hrho2 l' vs Hfresh).
+  - unfold l'. rewrite map_map. cbn [snd].
+    rewrite <- (map_map snd item_of). apply NoDup_map_inj_on; [|exact Hndl].
+    intros x y Hx Hy. rewrite Forall_forall in Hall.
+    apply in_map_iff in Hx. destruct Hx as (x0 & <- & Hx0). apply in_map_iff in Hy. destruct Hy as (y0 & <- & Hy0).
+    apply Hinj; [exact (proj2 (Hall _ Hx0))|exact (proj2 (Hall _ Hy0))].
+  - unfold l'. rewrite Forall_forall. intros x Hx. apply in_map_iff in Hx. destruct Hx as ([now m] & <- & Hx0).
+    cbn [fst snd]. rewrite Forall_forall in Hall. destruct (Hall _ Hx0) as [Hs Hm]. cbn [fst snd] in Hs, Hm.
+    split; [exact Hs|]. exact (proj2 (Hit m Hm)).
+Qed.
+
+End Bundle.
+
+(* ---- the three bundles ----------------------------------------------------------------------------------------- *)
 
 Definition all_broadcasts (c : cfg) (h ld : N) : list smsg := flat_map (round_broadcasts c h ld) (committee c).
 
@@ -33,119 +126,6 @@ Proof.
   intros c h ld m1 m2 H1 H2 E. rewrite (broadcast_rebuild c h ld m1 H1), (broadcast_rebuild c h ld m2 H2), E.
   reflexivity.
 Qed.
-
-Lemma NoDup_map_inj_on : forall (A B : Type) (f : A -> B) (l : list A),
-  (forall x y, In x l -> In y l -> f x = f y -> x = y) -> NoDup l -> NoDup (map f l).
-Proof.
-  intros A B f l Hinj Hnd. induction Hnd as [|a l Hni Hnd IH]; [constructor|].
-  cbn [map]. constructor.
-  - intros Hin. apply in_map_iff in Hin. destruct Hin as (y & Ey & Hy).
-    assert (y = a) by (apply Hinj; [right; exact Hy|left; reflexivity|exact Ey]). subst. contradiction.
-  - apply IH. intros x y Hx Hy. apply Hinj; right; assumption.
-Qed.
-
-Lemma item_of_gate : forall fdlen m h rho v nrc t s,
-  gate_msg fdlen true m = HR.hmsg h rho v fdlen nrc t s -> item_of m = (t, s).
-Proof.
-  intros fdlen [k rcj pj] h rho v nrc t s Eg.
-  pose proof (f_equal V.c_type Eg) as E1. pose proof (f_equal V.c_signers Eg) as E2.
-  cbn in E1, E2. unfold item_of. rewrite E1, E2. reflexivity.
-Qed.
-
-Section Round.
-(* the protocol side *)
-Variables (qc : cfg) (h ld : N).
-Hypothesis Hnd : NoDup (committee qc).
-Hypothesis Hz : ~ In 0 (committee qc).
-Hypothesis Hq1 : 1 <= quorum qc.
-Hypothesis Hq2 : quorum qc <= N.of_nat (length (committee qc)).
-Hypothesis Hld : proposer qc h FIRST_ROUND = Some ld.
-Hypothesis Hvc : value_check qc (start_value ld) = true.
-Hypothesis Hh : h <= 9223372036854775807.
-(* the peer's validator *)
-Variables (vc : V.cfg) (sh : V.share) (vid role fdlen : N) (p2p : bool) (rawlen dlen pkprefix : N).
-Hypothesis W : VP.wf_cfg vc.
-Hypothesis Hshare : V.get_share vc vid = Some sh.
-Hypothesis Hcomm : V.s_committee sh = committee qc.
-Hypothesis Hliq : V.s_liquidated sh = false.
-Hypothesis Hmeta : V.s_has_meta sh = true.
-Hypothesis Hatt : V.s_attesting sh = true.
-Hypothesis Hd0 : dlen <> 0.
-Hypothesis Hd1 : dlen <= VC.maxConsensusMsgSize.
-Hypothesis Hr0 : VC.messageOffset < rawlen.
-Hypothesis Hr1 : rawlen <= VC.maxEncodedMsgSize.
-Hypothesis Hrole : (N.eqb role VC.roleValidatorRegistration || N.eqb role VC.roleVoluntaryExit) = false.
-Hypothesis Hvalid : V.valid_role role = true.
-Hypothesis Hfd : fdlen <> 0.
-
-(* the envelope a peer receives for protocol message [m] *)
-Definition envelope_of (m : smsg) : V.envelope :=
-  {| V.e_p2p := p2p; V.e_raw_len := rawlen; V.e_topic := Some (pkprefix mod VC.subnetsCount);
-     V.e_op_found := true; V.e_op_key_ok := true; V.e_rsa_ok := true; V.e_ssv_decode_ok := true;
-     V.e_data_len := dlen; V.e_domain := V.c_domain vc; V.e_pk_prefix := pkprefix; V.e_role := role;
-     V.e_pk_deser_ok := true; V.e_vid := vid; V.e_msg_type := VC.ssvConsensusMsgType;
-     V.e_body := V.BConsensus (gate_msg fdlen true m) |}.
-
-(* 1. the operators of the protocol model broadcast exactly [round_broadcasts] (C07) *)
-Theorem every_operator_broadcasts_round_broadcasts : forall i, In i (committee qc) ->
-  exists s bs, run (with_me qc i) (new_instance h)
-                   (OStart (start_value i)
-                    :: OMsg (msg_of qc h T_PROPOSAL ld (hash (start_value ld)) (start_value ld))
-                    :: map (fun j => OMsg (msg_of qc h T_PREPARE j (hash (start_value ld)) None)) (committee qc)
-                    ++ map (fun j => OMsg (msg_of qc h T_COMMIT j (hash (start_value ld)) None)) (committee qc))
-               = (s, bs) /\
-              smsgs_eqb (bcasts bs) (round_broadcasts qc h ld i) = true.
-Proof.
-  intros i Hi. apply sync_node_ok_broadcasts.
-  apply (sync_fault_free_generic qc h ld Hnd Hz Hq1 Hq2 Hld Hvc i Hi).
-Qed.
-
-(* 2. and a correct peer accepts every one of them *)
-Theorem fault_free_round_is_accepted : forall (l : list ((Z * Z) * smsg)) (vs : V.vstate),
-  HR.before_round h VC.firstRound (V.get_cs (vid, role) vs) ->
-  NoDup (map snd l) ->
-  Forall (fun x => HE.in_slot vc h (fst x) /\ In (snd x) (all_broadcasts qc h ld)) l ->
-  Forall (eq V.Accept) (snd (V.run vc vs (map (fun x => (fst x, envelope_of (snd x))) l))).
-Proof.
-  clear Hnd Hq1 Hq2 Hvc.
-  intros l vs Hfresh Hndl Hall.
-  assert (Hh64 : h < 18446744073709551616) by lia.
-  pose proof (leader_is qc sh h ld Hcomm Hld Hh64) as Hleader.
-  assert (Hrr : V.rr_defined sh h VC.firstRound = true).
-  { apply rr_defined_in_range; try (unfold VC.firstRound; lia).
-    rewrite Hcomm. pose proof (leader_in_committee qc sh h ld Hcomm Hld Hh64) as L.
-    intros E. rewrite E in L. destruct L. }
-  set (l' := map (fun x => (fst x, item_of (snd x))) l).
-  assert (Hmap : map (fun x => (fst x, envelope_of (snd x))) l =
-                 map (fun x => (fst x, HE.henv vc vid role h VC.firstRound (value_name ld) fdlen 0 p2p rawlen dlen pkprefix
-                                        (fst (snd x)) (snd (snd x)))) l').
-  { unfold l'. rewrite map_map. apply map_ext_in. intros [now m] Hx. cbn [fst snd].
-    rewrite Forall_forall in Hall. destruct (Hall _ Hx) as [_ Hm]. cbn [snd] in Hm.
-    unfold all_broadcasts in Hm. apply in_flat_map in Hm. destruct Hm as (i & Hi & Hm).
-    destruct (round_broadcasts_are_honest_items qc sh h ld fdlen Hcomm Hz i m Hi Hm) as (t & s & Eg & _).
-    pose proof (item_of_gate _ _ _ _ _ _ _ _ Eg) as Et.
-    rewrite Et. cbn [fst snd]. unfold envelope_of, HE.henv. rewrite Eg. reflexivity. }
-  rewrite Hmap.
-  apply (HE.honest_round_accepted_at_the_gate vc sh vid role h VC.firstRound ld (value_name ld) fdlen 0 p2p rawlen dlen pkprefix
-           W Hshare Hliq Hmeta Hatt Hd0 Hd1 Hr0 Hr1 Hrole Hvalid Hleader Hrr Hfd
-           ltac:(unfold VC.firstRound; lia) ltac:(unfold VC.firstRound; lia) l' vs Hfresh).
-  - unfold l'. rewrite map_map. cbn [snd].
-    rewrite <- (map_map snd item_of). apply NoDup_map_inj_on; [|exact Hndl].
-    intros x y Hx Hy. rewrite Forall_forall in Hall.
-    apply in_map_iff in Hx. destruct Hx as (x0 & <- & Hx0). apply in_map_iff in Hy. destruct Hy as (y0 & <- & Hy0).
-    apply (item_of_inj qc h ld); [exact (proj2 (Hall _ Hx0))|exact (proj2 (Hall _ Hy0))].
-  - unfold l'. rewrite Forall_forall. intros x Hx. apply in_map_iff in Hx. destruct Hx as ([now m] & <- & Hx0).
-    cbn [fst snd]. rewrite Forall_forall in Hall. destruct (Hall _ Hx0) as [Hs Hm]. cbn [fst snd] in Hs, Hm.
-    split; [exact Hs|].
-    unfold all_broadcasts in Hm. apply in_flat_map in Hm. destruct Hm as (i & Hi & Hm).
-    destruct (round_broadcasts_are_honest_items qc sh h ld fdlen Hcomm Hz i m Hi Hm) as (t & s & Eg & Hit).
-    pose proof (item_of_gate _ _ _ _ _ _ _ _ Eg) as Et.
-    rewrite Et. exact Hit.
-Qed.
-
-End Round.
-
-(* ---- the recovery round ------------------------------------------------------------------------------------ *)
 
 Definition all_broadcasts2 (c : cfg) (h ld2 : N) (live : list N) : list smsg :=
   flat_map (round2_broadcasts c h ld2 live) live.
@@ -171,11 +151,52 @@ Proof.
   rewrite (broadcast2_rebuild c h ld2 live m1 H1), (broadcast2_rebuild c h ld2 live m2 H2), E. reflexivity.
 Qed.
 
-Section Round2.
-Variables (qc : cfg) (h ld2 : N) (live : list N).
+Definition all_broadcasts2p (c : cfg) (h ld1 ld2 : N) (live : list N) : list smsg :=
+  flat_map (round2p_broadcasts c h ld1 ld2 live) live.
+
+Definition rebuild2p (c : cfg) (h ld1 : N) (live : list N) (x : N * N) : smsg :=
+  if fst x =? T_PROPOSAL then prop2p c h ld1 live (snd x) (firstn (N.to_nat (quorum c)) live)
+  else if fst x =? T_ROUNDCHANGE then rcp h ld1 live (start_value ld1) (snd x)
+  else fm2 h (fst x) (hash (start_value ld1)) (snd x).
+
+Lemma broadcast2p_rebuild : forall c h ld1 ld2 live m,
+  In m (all_broadcasts2p c h ld1 ld2 live) -> m = rebuild2p c h ld1 live (item_of m).
+Proof.
+  intros c h ld1 ld2 live m Hm. unfold all_broadcasts2p in Hm. apply in_flat_map in Hm. destruct Hm as (i & _ & Hm).
+  unfold round2p_broadcasts in Hm. cbn [app] in Hm. destruct Hm as [<-|Hm]; [reflexivity|].
+  apply in_app_or in Hm. destruct Hm as [Hm|[<-|[<-|[]]]]; try reflexivity.
+  destruct (N.eqb_spec ld2 i) as [->|]; [|destruct Hm]. destruct Hm as [<-|[]]. reflexivity.
+Qed.
+
+Lemma item_of_inj2p : forall c h ld1 ld2 live m1 m2,
+  In m1 (all_broadcasts2p c h ld1 ld2 live) -> In m2 (all_broadcasts2p c h ld1 ld2 live) ->
+  item_of m1 = item_of m2 -> m1 = m2.
+Proof.
+  intros c h ld1 ld2 live m1 m2 H1 H2 E.
+  rewrite (broadcast2p_rebuild c h ld1 ld2 live m1 H1), (broadcast2p_rebuild c h ld1 ld2 live m2 H2), E. reflexivity.
+Qed.
+
+(* 1. the operators of the protocol model broadcast exactly [round_broadcasts] in the fault-free round (C07) *)
+Theorem every_operator_broadcasts_round_broadcasts : forall (qc : cfg) (h ld : N),
+  NoDup (committee qc) -> ~ In 0 (committee qc) ->
+  1 <= quorum qc -> quorum qc <= N.of_nat (length (committee qc)) ->
+  proposer qc h FIRST_ROUND = Some ld -> value_check qc (start_value ld) = true ->
+  forall i, In i (committee qc) ->
+  exists s bs, run (with_me qc i) (new_instance h)
+                   (OStart (start_value i)
+                    :: OMsg (msg_of qc h T_PROPOSAL ld (hash (start_value ld)) (start_value ld))
+                    :: map (fun j => OMsg (msg_of qc h T_PREPARE j (hash (start_value ld)) None)) (committee qc)
+                    ++ map (fun j => OMsg (msg_of qc h T_COMMIT j (hash (start_value ld)) None)) (committee qc))
+               = (s, bs) /\
+              smsgs_eqb (bcasts bs) (round_broadcasts qc h ld i) = true.
+Proof.
+  intros qc h ld Hnd Hz Hq1 Hq2 Hld Hvc i Hi. apply sync_node_ok_broadcasts.
+  apply (sync_fault_free_generic qc h ld Hnd Hz Hq1 Hq2 Hld Hvc i Hi).
+Qed.
+
+Section Rounds.
+Variables (qc : cfg) (h : N).
 Hypothesis Hz : ~ In 0 (committee qc).
-Hypothesis Hlive : forall y, In y live -> In y (committee qc).
-Hypothesis Hld : proposer qc h R2 = Some ld2.
 Hypothesis Hh : h <= 9223372036854775807.
 Variables (vc : V.cfg) (sh : V.share) (vid role fdlen : N) (p2p : bool) (rawlen dlen pkprefix : N).
 Hypothesis W : VP.wf_cfg vc.
@@ -192,55 +213,87 @@ Hypothesis Hrole : (N.eqb role VC.roleValidatorRegistration || N.eqb role VC.rol
 Hypothesis Hvalid : V.valid_role role = true.
 Hypothesis Hfd : fdlen <> 0.
 
-Definition envelope_of2 (m : smsg) : V.envelope :=
-  {| V.e_p2p := p2p; V.e_raw_len := rawlen; V.e_topic := Some (pkprefix mod VC.subnetsCount);
-     V.e_op_found := true; V.e_op_key_ok := true; V.e_rsa_ok := true; V.e_ssv_decode_ok := true;
-     V.e_data_len := dlen; V.e_domain := V.c_domain vc; V.e_pk_prefix := pkprefix; V.e_role := role;
-     V.e_pk_deser_ok := true; V.e_vid := vid; V.e_msg_type := VC.ssvConsensusMsgType;
-     V.e_body := V.BConsensus (gate_msg fdlen true m) |}.
+Let env := envelope_of vc vid role fdlen p2p rawlen dlen pkprefix.
 
-(* Every round-2 message of the recovery (round changes, the justified proposal, prepares, commits of the live
-   operators), in any order, at any instant of the slot, to a peer whose validator saw nothing or only round 1 of
-   the duty: Accept. *)
-Theorem recovery_round_is_accepted : forall (l : list ((Z * Z) * smsg)) (vs : V.vstate),
+Lemma h64 : h < 18446744073709551616.
+Proof. lia. Qed.
+
+Lemma committee_not_empty : forall rho ldr, V.round_robin (V.s_committee sh) h rho = V.LeaderIs ldr -> committee qc <> [].
+Proof.
+  intros rho ldr L E. rewrite Hcomm, E in L. unfold V.round_robin in L. cbn in L. discriminate.
+Qed.
+
+(* 2. a correct peer accepts every broadcast of the fault-free first round *)
+Theorem fault_free_round_is_accepted : forall ld,
+  proposer qc h FIRST_ROUND = Some ld ->
+  forall (l : list ((Z * Z) * smsg)) (vs : V.vstate),
+  HR.before_round h VC.firstRound (V.get_cs (vid, role) vs) ->
+  NoDup (map snd l) ->
+  Forall (fun x => HE.in_slot vc h (fst x) /\ In (snd x) (all_broadcasts qc h ld)) l ->
+  Forall (eq V.Accept) (snd (V.run vc vs (map (fun x => (fst x, env (snd x))) l))).
+Proof.
+  intros ld Hld. pose proof (leader_is qc sh h ld Hcomm Hld h64) as Hleader.
+  assert (Hrr : V.rr_defined sh h VC.firstRound = true).
+  { apply rr_defined_in_range; try (unfold VC.firstRound; lia). rewrite Hcomm.
+    exact (committee_not_empty _ _ Hleader). }
+  apply (bundle_is_accepted vc sh vid role fdlen p2p rawlen dlen pkprefix W Hshare Hliq Hmeta Hatt Hd0 Hd1 Hr0 Hr1
+           Hrole Hvalid Hfd (all_broadcasts qc h ld) h VC.firstRound ld (value_name ld) 0 false 0 0).
+  - intros m Hm. unfold all_broadcasts in Hm. apply in_flat_map in Hm. destruct Hm as (i & Hi & Hm).
+    exact (round_broadcasts_are_honest_items qc sh h ld fdlen Hcomm Hz i m Hi Hm).
+  - apply item_of_inj.
+  - exact Hleader.
+  - exact Hrr.
+  - unfold VC.firstRound. lia.
+  - unfold VC.firstRound. lia.
+Qed.
+
+(* 3. round 2 of the recovery from a silent first round *)
+Theorem recovery_round_is_accepted : forall ld2 (live : list N),
+  (forall y, In y live -> In y (committee qc)) ->
+  proposer qc h R2 = Some ld2 ->
+  forall (l : list ((Z * Z) * smsg)) (vs : V.vstate),
   HR.before_round h 2 (V.get_cs (vid, role) vs) ->
   NoDup (map snd l) ->
   Forall (fun x => HE.in_slot vc h (fst x) /\ In (snd x) (all_broadcasts2 qc h ld2 live)) l ->
-  Forall (eq V.Accept) (snd (V.run vc vs (map (fun x => (fst x, envelope_of2 (snd x))) l))).
+  Forall (eq V.Accept) (snd (V.run vc vs (map (fun x => (fst x, env (snd x))) l))).
 Proof.
-  intros l vs Hfresh Hndl Hall.
-  assert (Hh64 : h < 18446744073709551616) by lia.
-  pose proof (leader2_is qc sh h ld2 Hcomm Hld Hh64) as Hleader.
-  assert (Hne : committee qc <> []).
-  { intros E. rewrite Hcomm, E in Hleader. unfold V.round_robin in Hleader. cbn in Hleader. discriminate. }
+  intros ld2 live Hlive Hld. pose proof (leader2_is qc sh h ld2 Hcomm Hld h64) as Hleader.
   assert (Hrr : V.rr_defined sh h 2 = true).
-  { apply rr_defined_in_range; try lia. rewrite Hcomm. exact Hne. }
-  set (l' := map (fun x => (fst x, item_of (snd x))) l).
-  set (nrc := nrc2 qc live).
-  assert (Hitem : forall m, In m (all_broadcasts2 qc h ld2 live) ->
-            gate_msg fdlen true m = HR.hmsg h 2 (value_name ld2) fdlen nrc (fst (item_of m)) (snd (item_of m)) /\
-            HR.honest_item sh ld2 (item_of m)).
-  { intros m Hm. unfold all_broadcasts2 in Hm. apply in_flat_map in Hm. destruct Hm as (i & Hi & Hm).
-    destruct (round2_broadcasts_are_honest_items qc sh h ld2 fdlen live Hcomm Hz Hlive Hld i m Hi Hm) as (t & s & Eg & Hit).
-    pose proof (item_of_gate _ _ _ _ _ _ _ _ Eg) as Et. rewrite Et. cbn [fst snd]. split; [exact Eg|exact Hit]. }
-  assert (Hmap : map (fun x => (fst x, envelope_of2 (snd x))) l =
-                 map (fun x => (fst x, HE.henv vc vid role h 2 (value_name ld2) fdlen nrc p2p rawlen dlen pkprefix
-                                        (fst (snd x)) (snd (snd x)))) l').
-  { unfold l'. rewrite map_map. apply map_ext_in. intros [now m] Hx. cbn [fst snd].
-    rewrite Forall_forall in Hall. destruct (Hall _ Hx) as [_ Hm]. cbn [snd] in Hm.
-    destruct (Hitem m Hm) as [Eg _]. unfold envelope_of2, HE.henv. rewrite Eg. reflexivity. }
-  rewrite Hmap.
-  apply (HE.honest_round_accepted_at_the_gate vc sh vid role h 2 ld2 (value_name ld2) fdlen nrc p2p rawlen dlen pkprefix
-           W Hshare Hliq Hmeta Hatt Hd0 Hd1 Hr0 Hr1 Hrole Hvalid Hleader Hrr Hfd
-           ltac:(unfold VC.firstRound; lia) ltac:(lia) l' vs Hfresh).
-  - unfold l'. rewrite map_map. cbn [snd].
-    rewrite <- (map_map snd item_of). apply NoDup_map_inj_on; [|exact Hndl].
-    intros x y Hx Hy. rewrite Forall_forall in Hall.
-    apply in_map_iff in Hx. destruct Hx as (x0 & <- & Hx0). apply in_map_iff in Hy. destruct Hy as (y0 & <- & Hy0).
-    apply (item_of_inj2 qc h ld2 live); [exact (proj2 (Hall _ Hx0))|exact (proj2 (Hall _ Hy0))].
-  - unfold l'. rewrite Forall_forall. intros x Hx. apply in_map_iff in Hx. destruct Hx as ([now m] & <- & Hx0).
-    cbn [fst snd]. rewrite Forall_forall in Hall. destruct (Hall _ Hx0) as [Hs Hm]. cbn [fst snd] in Hs, Hm.
-    split; [exact Hs|]. exact (proj2 (Hitem m Hm)).
+  { apply rr_defined_in_range; try lia. rewrite Hcomm. exact (committee_not_empty _ _ Hleader). }
+  apply (bundle_is_accepted vc sh vid role fdlen p2p rawlen dlen pkprefix W Hshare Hliq Hmeta Hatt Hd0 Hd1 Hr0 Hr1
+           Hrole Hvalid Hfd (all_broadcasts2 qc h ld2 live) h 2 ld2 (value_name ld2) (nrc2 qc live) false 0 0).
+  - intros m Hm. unfold all_broadcasts2 in Hm. apply in_flat_map in Hm. destruct Hm as (i & Hi & Hm).
+    exact (round2_broadcasts_are_honest_items qc sh h ld2 fdlen live Hcomm Hz Hlive Hld i m Hi Hm).
+  - apply item_of_inj2.
+  - exact Hleader.
+  - exact Hrr.
+  - unfold VC.firstRound. lia.
+  - lia.
 Qed.
 
-End Round2.
+(* 4. round 2 of the recovery from a prepared first round: the round changes carry the prepared value *)
+Theorem prepared_recovery_round_is_accepted : forall ld1 ld2 (live : list N),
+  (forall y, In y live -> In y (committee qc)) ->
+  proposer qc h R2 = Some ld2 ->
+  forall (l : list ((Z * Z) * smsg)) (vs : V.vstate),
+  HR.before_round h 2 (V.get_cs (vid, role) vs) ->
+  NoDup (map snd l) ->
+  Forall (fun x => HE.in_slot vc h (fst x) /\ In (snd x) (all_broadcasts2p qc h ld1 ld2 live)) l ->
+  Forall (eq V.Accept) (snd (V.run vc vs (map (fun x => (fst x, env (snd x))) l))).
+Proof.
+  intros ld1 ld2 live Hlive Hld. pose proof (leader2_is qc sh h ld2 Hcomm Hld h64) as Hleader.
+  assert (Hrr : V.rr_defined sh h 2 = true).
+  { apply rr_defined_in_range; try lia. rewrite Hcomm. exact (committee_not_empty _ _ Hleader). }
+  apply (bundle_is_accepted vc sh vid role fdlen p2p rawlen dlen pkprefix W Hshare Hliq Hmeta Hatt Hd0 Hd1 Hr0 Hr1
+           Hrole Hvalid Hfd (all_broadcasts2p qc h ld1 ld2 live) h 2 ld2 (value_name ld1) (nrc2 qc live) true
+           (nlive live) (nlive live)).
+  - intros m Hm. unfold all_broadcasts2p in Hm. apply in_flat_map in Hm. destruct Hm as (i & Hi & Hm).
+    exact (round2p_broadcasts_are_honest_items qc sh h ld1 ld2 fdlen live Hcomm Hz Hlive i m Hi Hm).
+  - apply item_of_inj2p.
+  - exact Hleader.
+  - exact Hrr.
+  - unfold VC.firstRound. lia.
+  - lia.
+Qed.
+
+End Rounds.
